@@ -680,10 +680,32 @@ func (fc *FuncCtx) binop(st *State, op string, a, b Val, typ types.Type, operand
 		}
 		return Val{T: Div(at, mk("pow2", SInt, bt)), Typ: typ}
 	case "&", "|", "^", "&^":
+		if isChoice(operandTyp) {
+			fc.note("ct.Choice/ct.Bool values are 0 or 1 (type invariant of pkg/base/ct)")
+			a1, b1 := Eq(at, IntLit(1)), Eq(bt, IntLit(1))
+			switch op {
+			case "&":
+				return Val{T: ctBool(And(a1, b1)), Typ: typ}
+			case "|":
+				return Val{T: ctBool(Or(a1, b1)), Typ: typ}
+			case "^":
+				return Val{T: ctBool(Not(Eq(a1, b1))), Typ: typ}
+			case "&^":
+				return Val{T: ctBool(And(a1, Not(b1))), Typ: typ}
+			}
+		}
 		return Val{T: fc.bitop(op, at, bt, w), Typ: typ}
 	}
 	fc.fail(pos, "unsupported binary op %s", op)
 	return Val{}
+}
+
+func isChoice(t types.Type) bool {
+	if t == nil {
+		return false
+	}
+	n, ok := types.Unalias(t).(*types.Named)
+	return ok && n.Obj().Name() == "Choice" && n.Obj().Pkg() != nil && strings.HasSuffix(n.Obj().Pkg().Path(), "/base/ct")
 }
 
 func (fc *FuncCtx) wrapShift(t *Term, typ types.Type) *Term {
